@@ -649,7 +649,7 @@ pub fn perturb_parts(rng: &mut Rng, p: &Parts) -> Parts {
                 q.path.push_str("-x");
             } else {
                 let i = rng.pick(&idx);
-                q.path.replace_range(i..i + 1, rng.pick(&["-", "!", "$", "&", "'", "(", ")", "*", "+", ",", "%2D"]));
+                q.path.replace_range(i..i + 1, rng.pick(&["-", "!", "$", "&", "'", "(", ")", "*", "+", ",", "%2D", "%00", "%01", "%FF", "%7F", "%2E", "%00%00"]));
             }
         }
         0 => q.path.push_str("/"),
